@@ -33,6 +33,28 @@ class FromGraph(ArrayExpr):
         # (it only dedups when cls.__init__ is object.__init__).
         pass
 
+    def __dask_tokenize__(self):
+        # The layer is opaque data.  It usually tokenizes (persisted NumPy
+        # blocks), but it may hold objects that cannot be hashed
+        # deterministically -- ``store(..., return_stored=True)`` persists
+        # graphs whose values are the user's storage targets (h5py datasets,
+        # objects holding locks).  Like ``FromArray`` for such sources, fall
+        # back to a random token computed once and cached/pickled with the
+        # instance instead of failing every parent's tokenization.
+        if not self._determ_token:
+            from dask import config
+            from dask.tokenize import TokenizationError, _tokenize_deterministic
+
+            try:
+                self._determ_token = _tokenize_deterministic(type(self), *self.operands)
+            except TokenizationError:
+                if config.get("tokenize.ensure-deterministic"):
+                    raise
+                import uuid
+
+                self._determ_token = uuid.uuid4().hex
+        return self._determ_token
+
     def lower_once(self, lowered):
         # An opaque graph with materialized dependencies — nothing to lower.
         # Must never enter the (name-keyed) lowering cache: a persisted
